@@ -395,7 +395,8 @@ bloc_literal(bloc_value* v, const char **buf)
   try
   {
     bloc::Literal * str = reinterpret_cast<bloc::Value*>(v)->literal();
-    *buf = str->data();
+    /* a null value has no payload: as documented, *buf is set to NULL */
+    *buf = (str ? str->data() : nullptr);
     return bloc_true;
   }
   catch (bloc::RuntimeError& re)
@@ -411,8 +412,9 @@ bloc_tabchar(bloc_value* v, const char **buf, unsigned *len)
   try
   {
     bloc::TabChar * tc = reinterpret_cast<bloc::Value*>(v)->tabchar();
-    *buf = tc->data();
-    *len = (unsigned)tc->size();
+    /* a null value has no payload: as documented, *buf is set to NULL */
+    *buf = (tc ? tc->data() : nullptr);
+    *len = (tc ? (unsigned)tc->size() : 0);
     return bloc_true;
   }
   catch (bloc::RuntimeError& re)
